@@ -469,7 +469,7 @@ func vfC17ReposJSON(rs []*zoekt.Repository, maskID uint32, mask bool) string {
 }
 
 func TestVerifC17(t *testing.T) {
-	r := vfNewRand(vfSeed())
+	r := vfNewRand(vfNewRand(vfSeed()).U64()) // the shared splitmix64 seeding makes seed k+1 the stream of seed k shifted by ONE draw: hash the seed first
 	n := vfN(150)
 	root := filepath.Join(os.Getenv("VERIF_TMP"), "c17")
 	if os.Getenv("VERIF_TMP") == "" {
